@@ -63,6 +63,8 @@ func jsExpr(e *sx) string {
 		return "(typeof " + e.args[0].name + ")"
 	case "var":
 		return e.args[0].name
+	case "cid":
+		return "__blk(" + jsExpr(e.args[0]) + ")"
 	case "obj":
 		var p []string
 		for _, f := range e.args {
@@ -179,6 +181,10 @@ func RenderJS(vars, prog string) string {
 	var b strings.Builder
 	if vars != "-" && vars != "" {
 		b.WriteString("var " + vars + ";\n")
+	}
+	if strings.Contains(prog, "cid(") {
+		// a script function that returns its argument and runs labelled statements of its own on the way
+		b.WriteString("function __blk(x) { __l0: { __l1: while (true) { break __l0; } } for (var __i = 0; __i < 2; __i++) { { continue; } } switch (1) { case 1: break; } return x; }\n")
 	}
 	for _, s := range p.args {
 		b.WriteString(jsStmt(s))
